@@ -134,4 +134,26 @@ def dialStreamSplit (target : Addr) (payloadLen : Nat) (draw : Nat) : R (Int × 
     let d ← intN draw Gen.C06.MaxPaddingLength
     dialStreamFinish tal payloadLen (1 + d) 0
 
+/-! ### what a peer RETURNS TO A CLIENT of this program, and what is computed from it: the SOCKS5 UDP ASSOCIATE reply
+
+`conn.Addr`'s accessors panic by contract on the wrong address kind (`Addr.ip` / `Addr.domain` of `SSV.Model.Parsers`);
+`ResolveIP` / `ResolveIPPort` / `Host` panic only on the zero value. -/
+
+/-- `conn.Addr.ResolveIPPort(ctx, network)`; `resolve` = the resolver's answer for a name (`none` = lookup error) -/
+def Addr.resolveIPPort (resolve : Bytes → Option (Bool × Bytes)) : Addr → R (Bool × Bytes × Nat)
+  | .ip4 a p => .ok (true, a, p)
+  | .ip6 a p => .ok (false, a, p)
+  | .dom d p => match resolve d with
+    | Option.none => .err .lookup
+    | some (v4, a) => .ok (v4, a, p)
+  | .none => .panic
+
+/-- `(*Socks5UDPClient).NewSession` / `(*Socks5AuthUDPClient).NewSession`: `ClientUDPAssociate(tc, conn.Addr{})` on the server's
+byte stream, then `newSession`: the BND.ADDR of the reply (IPv4 / IPv6 / DOMAIN / unspecified / port 0, as the server likes)
+goes to `ResolveIPPort`; the result is the address the session's packer sends to. -/
+def s5UDPNewSession (auth : Bool) (authMsg : Bytes) (resolve : Bytes → Option (Bool × Bytes)) (stream : Bytes) :
+    R (Bool × Bytes × Nat) := do
+  let bnd ← s5Client auth authMsg (UInt8.ofNat Gen.C06.CmdUDPAssociate) [UInt8.ofNat Gen.C06.AtypIPv4, 0, 0, 0, 0, 0, 0] stream
+  bnd.resolveIPPort resolve
+
 end SSV.Parsers
